@@ -47,6 +47,16 @@ def lemmas():
     out.append(Lemma(name="C07.assemble", src="steps.c", entry="h_assemble", props=["C07", "C06"], enforce=[R("assemble")], replace=CALLEES,
                      unwindset=US, functions=["assemble"], timeout=300,
                      desc="plain step: writes only [buffer+p, buffer+p+20) and only when p+20 <= n; fewer than 20 bytes left => EXIT_FAILURE, position and buffer untouched; position advances by the emitter's length; buffer is_fresh of ANY int length"))
+    # the same three steps with the room check INLINED (not by contract): independent of check_len_or_resize's signature and contract
+    out.append(Lemma(name="C07.assemble.inl", src="steps.c", entry="h_assemble", props=["C07", "C06"], enforce=[R("assemble")], replace=[R("assemble_asm")],
+                     unwindset=US, functions=["assemble", "check_len_or_resize"], timeout=300,
+                     desc="plain step with the real room check inlined: same contract (writes only [buffer+p, +20) and only when p+20 <= n, else EXIT_FAILURE and nothing written)"))
+    out.append(Lemma(name="C07.cnt.inl.c16", src="steps.c", entry="h_counting", props=["C07", "C14"], defs={"CHUNK": "16u"}, enforce=[R("assemble_counting_chunks")], replace=[R("assemble_asm")],
+                     unwindset=US, functions=["assemble_counting_chunks", "check_len_or_resize"], timeout=600, bounded="chunk size enumerated (c=16)", slice=True,
+                     desc="counting step with the real room check inlined (chunk 16)"))
+    out.append(Lemma(name="C07.fit.inl.c16", src="steps.c", entry="h_fitting", props=["C07", "C13"], defs={"CHUNK": "16u"}, enforce=[R("assemble_with_chunk_fitting")], replace=[R("assemble_asm"), R("nop_padding")],
+                     unwindset=US, functions=["assemble_with_chunk_fitting", "check_len_or_resize"], timeout=600, bounded="chunk size enumerated (c=16)", slice=True,
+                     desc="fitting step with the real room check inlined (chunk 16)"))
     S1US = "s1_decode.0:5,s1_decode.1:6,s1_decode.2:260,s1_decode.3:9,s1_all_nops.0:21,one.0:25,one.1:25"
     for k in range(1, 20):
         out.append(Lemma(name="C13.nop_padding.k%d" % k, src="nops.c", entry="h_nop_padding", props=["C13", "C09"], defs={"NOP_K": str(k)},
